@@ -40,7 +40,7 @@ THEOREMS = [
 ]
 LEVEL = "proof"
 
-POSITIONS = [[], ["a"], ["a", "b"], ["a", "b", "c"], ["a", "d"], ["e"], ["a", "b", "a"], ["ab"]]   # "a" is a proper prefix of "ab" as a string only
+POSITIONS = [[], ["a"], ["a", "b"], ["a", "b", "c"], ["a", "d"], ["e"], ["a", "b", "a"], ["ab"], ["b"]]   # "a" is a proper prefix of "ab" as a string only
 KINDS = ["enum", "record", "interface"]
 
 
